@@ -135,6 +135,14 @@ func runC31(r *simkit.Run) {
 			initVersion[n] = 1
 		}
 	}
+	// every namespace object built in the run (also staged ones that are replaced before a commit) is closed at the end
+	var everNS []*server.Namespace
+	verifhook.Hooks["server.NewNamespace"] = func(v interface{}) {
+		if n, ok := v.(*server.Namespace); ok && n != nil {
+			everNS = append(everNS, n)
+		}
+	}
+	defer delete(verifhook.Hooks, "server.NewNamespace")
 	m, err := server.VerifNewManager("c3", initial)
 	if err != nil {
 		r.Failf("harness", "VerifNewManager: %v", err)
@@ -359,8 +367,15 @@ func runC31(r *simkit.Run) {
 	r.State(simkit.Hash(describeHistory(w.ops)))
 	r.Sample = map[string]interface{}{"config": cfg, "history": strings.Split(describeHistory(w.ops), "; ")}
 	// drain: close every namespace object so pool timers stop
-	for _, ns := range server.VerifAllNamespaces(m) {
-		ns.Close(false)
+	seen := map[*server.Namespace]bool{}
+	for _, ns := range append(server.VerifAllNamespaces(m), everNS...) {
+		if !seen[ns] {
+			seen[ns] = true
+			func() {
+				defer func() { recover() }()
+				ns.Close(false)
+			}()
+		}
 	}
 	simkit.Sleep(70 * time.Second)
 }
